@@ -136,6 +136,9 @@ type W struct {
 	Inner  node.Node
 	Parent *W
 	Label  string
+	// Created: the node was handed out in answer to a creating request (Child or
+	// Next with New) rather than found.
+	Created bool
 }
 
 func (s *Session) Wrap(inner node.Node, side string, parent *W, label string) *W {
@@ -252,7 +255,9 @@ func (w *W) Child(r node.ChildRequest) (node.Node, error) {
 	if err != nil {
 		return nil, err
 	}
-	return w.S.Wrap(c, w.Side, w, w.Label+"/"+r.Meta.Ident()), nil
+	cw := w.S.Wrap(c, w.Side, w, w.Label+"/"+r.Meta.Ident())
+	cw.Created = r.New
+	return cw, nil
 }
 
 func isNilNode(n node.Node) bool {
@@ -294,7 +299,9 @@ func (w *W) Next(r node.ListRequest) (node.Node, []val.Value, error) {
 	if kk == nil {
 		kk = r.Key
 	}
-	return w.S.Wrap(c, w.Side, w, w.Label+keyStr(kk)), k, nil
+	cw := w.S.Wrap(c, w.Side, w, w.Label+keyStr(kk))
+	cw.Created = r.New
+	return cw, k, nil
 }
 
 func (w *W) Field(r node.FieldRequest, hnd *node.ValueHandle) error {
